@@ -241,7 +241,15 @@ func runHeap(c *HeapCase) (interface{}, error) {
 			toks = append(toks, nt)
 			birth = append(birth, observeTok(nt, pub))
 		case "getblockid":
-			toks[op.T-1].GetBlockID(biscuit.Fact{Predicate: biscuit.Predicate{Name: symName(c.Emb, op.S), IDs: []biscuit.Term{biscuit.Integer(0)}}})
+			// the looked-up symbol occurs as the predicate name, as a top-level term or inside a set (name and other terms known)
+			switch nm := symName(c.Emb, op.S); (c.Emb + int64(step)) % 3 {
+			case 0:
+				toks[op.T-1].GetBlockID(biscuit.Fact{Predicate: biscuit.Predicate{Name: nm, IDs: []biscuit.Term{biscuit.Integer(0)}}})
+			case 1:
+				toks[op.T-1].GetBlockID(biscuit.Fact{Predicate: biscuit.Predicate{Name: "right", IDs: []biscuit.Term{biscuit.String(nm)}}})
+			default:
+				toks[op.T-1].GetBlockID(biscuit.Fact{Predicate: biscuit.Predicate{Name: "right", IDs: []biscuit.Term{biscuit.Set{biscuit.String("read"), biscuit.String(nm)}}}})
+			}
 		case "seal":
 			nt, err := toks[op.T-1].Seal(nil2rand())
 			if err != nil {
